@@ -206,6 +206,18 @@ def _job_child(job, rundir):
         return _job_child2(job, rundir)
 
 
+def _group_child(jobs, rundir):
+    """several files decoded one after the other in ONE process (a long-lived replica)"""
+    out = {}
+    with core.FixedHeadroom():
+        for job in jobs:
+            rows = _job_child2(job, rundir)
+            for r in rows:
+                r["arm"] = r["arm"] + "@shared"
+            out[job["id"]] = rows
+    return out
+
+
 def _job_child2(job, rundir):
     d = os.path.join(rundir, "n-%s-%d" % (HOST, os.getpid()))
     os.makedirs(d, exist_ok=True)
@@ -237,8 +249,22 @@ def main():
     rundir = spec["rundir"]
     import xdis.magics as m
 
-    results = {"host": HOST, "host_magic": int(m.PYTHON_MAGIC_INT), "results": {}}
+    results = {"host": HOST, "host_magic": int(m.PYTHON_MAGIC_INT), "results": {}, "shared": {}}
+    groups = {}
     for job in spec["jobs"]:
+        if job.get("group") is not None:
+            groups.setdefault(job["group"], []).append(job)
+    for g in sorted(groups):
+        r = core.fork_call(_group_child, (groups[g], rundir), timeout=600, as_extra=2 << 30)
+        if r.status == "ok":
+            results["shared"].update(r.value)
+        else:
+            for job in groups[g]:
+                results["shared"][job["id"]] = [{"arm": "default@shared", "host": HOST, "node_failure": r.status,
+                                                 "detail": str(r.value)[-400:] if r.value else None}]
+    for job in spec["jobs"]:
+        if job.get("group") is not None:
+            continue
         r = core.fork_call(_job_child, (job, rundir), timeout=300, as_extra=2 << 30)
         if r.status == "ok":
             results["results"][job["id"]] = r.value
